@@ -29,7 +29,31 @@ type config struct {
 	Engine    string                    `json:"engine"`    // measure
 	Flags     []string                  `json:"flags"`     // extra server flags
 	Versioned bool                      `json:"versioned"`
+	TagsBySeries bool                   `json:"tagsBySeries"`
+	NegZero   bool                      `json:"negZero"` // C01 only: include -0.0 in the float pool (known finding)
 	Big       bool                      `json:"big"` // thorough: block-limit crossing payloads
+}
+
+// world is one engine instance under replay (one fresh group per behaviour).
+type world interface {
+	setup(ctx context.Context) error
+	replay(ctx context.Context, b vlib.Behaviour)
+	teardown(ctx context.Context)
+}
+
+// engines maps config.Engine to a constructor; engine files register themselves in init().
+var engines = map[string]func(srv *server, cfg config, group string, res *vlib.Result) world{
+	"measure": func(srv *server, cfg config, group string, res *vlib.Result) world {
+		return newMeasureWorld(srv, cfg, group, res)
+	},
+}
+
+// engineFlags returns the server flags and the manual-maintenance switch for an engine.
+var engineInit = map[string]func() []string{
+	"measure": func() []string {
+		measure.VerifSetManual(true)
+		return []string{"--measure-flush-timeout=1h"}
+	},
 }
 
 type server struct {
@@ -88,8 +112,16 @@ func main() {
 		res.Inconclusive = append(res.Inconclusive, err.Error())
 		finish()
 	}
-	measure.VerifSetManual(true)
-	flags := append([]string{"--measure-flush-timeout=1h", "--logging-level=error"}, cfg.Flags...)
+	if cfg.Engine == "" {
+		cfg.Engine = "measure"
+	}
+	mk, ok := engines[cfg.Engine]
+	if !ok {
+		res.Inconclusive = append(res.Inconclusive, "unknown engine "+cfg.Engine)
+		finish()
+	}
+	flags := append(engineInit[cfg.Engine](), "--logging-level=error")
+	flags = append(flags, cfg.Flags...)
 	srv, err := startServer(flags)
 	if err != nil {
 		res.Inconclusive = append(res.Inconclusive, "server: "+err.Error())
@@ -99,7 +131,7 @@ func main() {
 	tag := fmt.Sprintf("p%d", os.Getpid())
 	for n, b := range bs {
 		res.Behaviours++
-		m := newMeasureWorld(srv, cfg, fmt.Sprintf("vf%s-%d", tag, n), res)
+		m := mk(srv, cfg, fmt.Sprintf("vf%s-%d", tag, n), res)
 		if err := m.setup(ctx); err != nil {
 			if strings.HasPrefix(err.Error(), "VIOLATION") {
 				res.Violate(b.ID, 0, "schema-setup-failed", "%v", err)
